@@ -137,7 +137,7 @@ Ltac bstep_cases H :=
 Lemma bstep_floor : forall s o a s', binv s -> bstep s o a = Some s' -> binv s'.
 Proof.
   intros s o a s' I H. unfold binv in *.
-  destruct o as [bytes app|bytes st now|bytes pers now|now|m|bytes|]; bstep_cases H;
+  destruct o as [bytes app snow|bytes st now|bytes pers now|now|m|bytes|ust unow urtt|]; bstep_cases H;
     try (injection H as <-; cbn [bmds bcwnd]; try exact I; try lia; fail).
   - injection H as <-. cbn [bmds bcwnd].
     match goal with |- _ <= (if ?c then _ else _) => destruct c end; [|lia].
@@ -188,7 +188,7 @@ Lemma bstep_sat : forall s o a s' S, bsat s S -> bstep s o a = Some s' -> mtu_st
 Proof.
   intros s o a s' S (A & B & M) H K. unfold bsat in *.
   assert (MW : bbr_min_window (bmds s) <= CAP0) by (rewrite bbr_min_window_eq; unfold CAP0; lia).
-  destruct o as [bytes app|bytes st now|bytes pers now|now|m|bytes|]; cbn [sent_of]; bstep_cases H;
+  destruct o as [bytes app snow|bytes st now|bytes pers now|now|m|bytes|ust unow urtt|]; cbn [sent_of]; bstep_cases H;
     try (injection H as <-; cbn [bmds bcwnd bprior bdeliv bbif]; repeat split; try lia; fail).
   - (* Ack *)
     injection H as <-. cbn [bmds bcwnd bprior bdeliv bbif]. apply N.ltb_ge in E.
@@ -240,7 +240,7 @@ Qed.
 Lemma bstep_qinv : forall s o a s' now, qinv s -> bstep s o a = Some s' -> qinv (note_sent s' o now).
 Proof.
   intros s o a s' now [Q P] H. unfold qinv.
-  destruct o as [bytes ap|bytes st tnow|bytes pers tnow|tnow|m|bytes|].
+  destruct o as [bytes ap snow|bytes st tnow|bytes pers tnow|tnow|m|bytes|ust unow urtt|].
   - bstep_cases H. injection H as <-. cbn [note_sent bq bbif].
     destruct (N.eqb_spec bytes 0) as [Z|Z].
     + subst bytes. split; [lia|exact P].
@@ -266,12 +266,13 @@ Proof.
     destruct (take_qsum (bq s) bytes None) as [A B]; [lia|exact P|]. rewrite T in A, B. cbn [fst] in A, B.
     split; [lia|exact B].
   - bstep_cases H. injection H as <-. split; assumption.
+  - bstep_cases H. injection H as <-. split; assumption.
 Qed.
 
 Lemma bstep_valid_some : forall s o a, op_valid (bbif s) o = true -> bstep s o a <> None.
 Proof.
   intros s o a V. unfold op_valid in V. unfold bstep.
-  destruct o as [bytes app|bytes st now|bytes pers now|now|m|bytes|]; try discriminate.
+  destruct o as [bytes app snow|bytes st now|bytes pers now|now|m|bytes|ust unow urtt|]; try discriminate.
   - destruct (N.eqb_spec bytes 0); cbn [orb negb andb] in *; [discriminate|].
     apply N.leb_le in V. destruct (N.ltb_spec u32_max (bbif s + bytes)); [lia|discriminate].
   - apply N.leb_le in V. destruct (take (bq s) bytes None) as [q' hit].
@@ -287,7 +288,7 @@ Lemma bstep_bif : forall s o a s', qinv s -> op_valid (bbif s) o = true -> bstep
   bbif s' + removed_of o = bbif s + sent_of o /\ (bbif s <= u32_max -> bbif s' <= u32_max).
 Proof.
   intros s o a s' [Q P] V H. unfold op_valid in V.
-  destruct o as [bytes app|bytes st now|bytes pers now|now|m|bytes|]; cbn [removed_of sent_of].
+  destruct o as [bytes app snow|bytes st now|bytes pers now|now|m|bytes|ust unow urtt|]; cbn [removed_of sent_of].
   - unfold bstep in H. destruct (N.eqb_spec bytes 0) as [Z|Z]; cbn [orb negb andb] in *.
     + injection H as <-. cbn [bbif]. lia.
     + apply N.leb_le in V. destruct (N.ltb_spec u32_max (bbif s + bytes)); [discriminate|].
@@ -306,6 +307,7 @@ Proof.
   - unfold bstep in H. injection H as <-. cbn [bbif]. lia.
   - apply N.leb_le in V. unfold bstep in H. destruct (bbif s <? bytes); [discriminate|].
     destruct (take (bq s) bytes None). injection H as <-. cbn [bbif]. lia.
+  - unfold bstep in H. injection H as <-. lia.
   - unfold bstep in H. injection H as <-. lia.
 Qed.
 
@@ -359,10 +361,10 @@ Proof.
     assert (Z2 : (Nz (bbif s') <? 0)%Z = false) by (apply Z.ltb_ge; unfold Nz; lia).
     rewrite Z1, Z2. cbn [orb]. unfold zN, Nz. rewrite !N2Z.id.
     assert (M : match o with Mtu m => m | _ => bjm j end = bmds s').
-    { rewrite N1. clear - E Em. destruct o as [bytes app|bytes st now|bytes pers now|now|m|bytes|];
+    { rewrite N1. clear - E Em. destruct o as [bytes app snow|bytes st now|bytes pers now|now|m|bytes|ust unow urtt|];
         bstep_cases E; injection E as <-; cbn [bmds]; congruence. }
     assert (Bq : match o with
-                 | Sent bytes _ => bjb j + bytes
+                 | Sent bytes _ _ => bjb j + bytes
                  | Ack bytes _ _ | Lost bytes _ _ | Discard bytes => bjb j - bytes
                  | _ => bjb j end = bbif s').
     { rewrite Eb, N3. destruct o; cbn [sent_of removed_of] in B; lia. }
